@@ -170,14 +170,21 @@ func (n *MethodDefinitionNode) Equal(other value.Value) bool {
 func (n *MethodDefinitionNode) String() string {
 	var buff strings.Builder
 
+	doc := n.DocComment()
+	if len(doc) > 0 {
+		buff.WriteString("##[\n")
+		indent.IndentString(&buff, doc, 1)
+		buff.WriteString("\n]##\n")
+	}
+
 	if n.IsAbstract() {
 		buff.WriteString("abstract ")
 	}
 	if n.IsSealed() {
 		buff.WriteString("sealed ")
 	}
-	if n.IsGenerator() {
-		buff.WriteString("generator ")
+	if n.IsPure() {
+		buff.WriteString("pure ")
 	}
 	if n.IsAsync() {
 		buff.WriteString("async ")
@@ -186,7 +193,11 @@ func (n *MethodDefinitionNode) String() string {
 		buff.WriteString("overload ")
 	}
 
-	buff.WriteString("def ")
+	if n.IsGenerator() {
+		buff.WriteString("def* ")
+	} else {
+		buff.WriteString("def ")
+	}
 	buff.WriteString(n.Name.String())
 
 	if len(n.TypeParameters) > 0 {
@@ -594,6 +605,9 @@ func (n *InitDefinitionNode) String() string {
 		buff.WriteString("\n]##\n")
 	}
 
+	if n.IsSealed() {
+		buff.WriteString("sealed ")
+	}
 	if !n.IsPure() {
 		buff.WriteString("impure ")
 	}
